@@ -230,6 +230,8 @@ def cmd_check(args):
     print('VIOLATION property=%s replay=%s' % (prop, path))
     reported += 1
     rc = 1 if rc != 2 else 2
+  if new and args.max_report == 0 and rc == 0:
+    rc = 1
   if len(new) > args.max_report:
     print('(%d further distinct violation signatures not minimised)' % (len(new) - args.max_report))
   if stats['errors']:
